@@ -310,10 +310,10 @@ def tle_dir(ctx):
         os.makedirs(d)
         with open(os.path.join(d, "TLE_noaa14.txt"), "w") as fh:
             fh.write(NOAA14_TLE)
-        # the other POD spacecraft with a clock-error table need a TLE file to be read with default options: the NOAA-14
+        # the other spacecraft need a TLE file to be read with default options (clock drift, angles): the NOAA-14
         # element sets re-dated to the platform dates of PLATFORMS (the orbit itself does not matter to the checks using them)
-        for _id, _pl, nm, (y, doy) in PLATFORMS["pod"]:
-            if nm in ("noaa7", "noaa9", "noaa11", "noaa12"):
+        for _id, _pl, nm, (y, doy) in PLATFORMS["pod"] + PLATFORMS["klm"]:
+            if nm not in ("noaa14", "noaa16"):
                 with open(os.path.join(d, "TLE_%s.txt" % nm), "a") as fh:
                     fh.write(retimed_tle(NOAA14_TLE, ["%02d%03d.04713399" % (y % 100, doy), "%02d%03d.96799836" % (y % 100, doy)]))
         src = "/repo/gapfilled_tles/TLE_noaa16.txt"
